@@ -11,6 +11,7 @@ ASSUMPTIONS = [
     'user lock U is any Lockable used correctly: waits, predicate writes and unlock are executed only by the thread that holds U (PIKA_ASSERT_OWNS_LOCK is the real precondition)',
     'stop_token internals (callback list, request_stop running every registered callback on the requesting thread) are specified, their lock-free implementation belongs to C14',
     'runtime monitors for timed waits only judge notifications that returned >= 30 ms before the deadline',
+    'timed stop-token wait on pika tasks: a timed cv wait yields in sleep_until until its deadline, notified or not, so the runtime monitor asserts "returns pred() at the deadline at the latest" and "at once" (within 1.5 s of a 3 s deadline) only where the code returns without sleeping',
 ]
 
 F14_KEY = 'C07:os_timed_wait:notifier_blocked_in_resume'
@@ -37,8 +38,10 @@ def rt_run(r, h_rt, sd, n, mode, timeout):
         m = re.search(r'kind=(\w+)', i_)
         kind = m.group(1) if m else 'unknown'
         r.count('RT ' + ' '.join(i_.split(' ')[3:4] + [x for x in i_.split(' ')[4:] if x.startswith(('variant', 'lock', 'osn', 'form', 'mode'))]))
-        if kind == 'slow':
+        if kind in ('slow', 'timed_stop'):
             r.nontrivial(i_)
+        if kind == 'timed_stop':
+            r.extra['timed_stop_cases'] = r.extra.get('timed_stop_cases', 0) + 1
         if 'ok=1' not in o_:
             detail = o_.split('detail=', 1)[1] if 'detail=' in o_ else o_
             if 'never registered' in detail and 'gave up' in detail:
@@ -58,6 +61,13 @@ def rt_run(r, h_rt, sd, n, mode, timeout):
                 sig = 'C07:rt:timed:' + ('timeout_although_notified' if 'although' in detail else 'status')
             elif kind == 'pred':
                 sig = 'C07:rt:pred:' + ('returned_with_false_predicate' if 'never set' in detail else 'no_return' if 'did not return' in detail else 'return_state')
+            elif kind == 'timed_stop':
+                m2 = re.search(r'variant=(\w+)', i_)
+                var = m2.group(1) if m2 else 'x'
+                what = ('no_return' if 'did not return' in detail else 'late' if 'returned late' in detail else
+                        'early' if 'before its deadline' in detail else 'value' if 'value' in detail else
+                        'stop_not_seen' if 'stop_requested() false' in detail else 'return_state')
+                sig = 'C07:rt:timed_stop:%s:%s' % (var, what)
             elif kind == 'stop':
                 sig = 'C07:rt:stop:' + ('no_return' if 'did not return' in detail else 'value')
             else:
@@ -75,7 +85,12 @@ def run(ctx):
               'and predicts after every step which thread is finished/blocked/parked where (i.e. whom each notify wakes) and every '
               'return value; stuck states are detected on both sides and rescued by a controller notify_all.  RUNTIME: seeded cases '
               '(notify_all/notify_one rounds with registered-waiter counts, predicate/timed/stop-token waits, lock types '
-              'mutex/spinlock/custom, task and OS-thread notifiers) with monitors.  SLOW-UNLOCK (c07_rt <seed> <n> slow): condition_variable_any '
+              'mutex/spinlock/custom, task and OS-thread notifiers) with monitors; TIMED STOP-TOKEN WAIT (kind=timed_stop: '
+              'condition_variable_any::wait_for/wait_until(lock, stop_token, t, pred), 1..4 waiter tasks, unique_lock<pika::mutex> / custom lock, '
+              'variants stop_after_reg / pred_notify / nobody / stop_on_entry / stop_in_pred (request_stop from the first pred(), i.e. between '
+              'callback registration and the re-check under the internal lock) / pred_on_entry; monitor: returns by deadline + 6 s, value == pred() '
+              'read under the lock, false without stop requested only at/after the deadline, the last three variants within half of a 3 s deadline, '
+              'ownership/occupancy on return).  SLOW-UNLOCK (c07_rt <seed> <n> slow): condition_variable_any '
               'with a user BasicLockable whose unlock() keeps the caller busy 1..2 ms after the underlying mutex (pika::mutex / spinlock) '
               'was released; 1..4 waiters in wait(lk) loops / wait(lk,pred) / wait(lk,stop_token,pred) / wait_for(lk,300ms); the notifier '
               '(task or OS thread) is blocked on that mutex, and as soon as it owns it changes the predicate and issues notify_all / '
